@@ -11,7 +11,7 @@ from .pair import Pair
 from .sched import Scheduler, trace_provider_mdib, trace_provider_txid
 from .tlc import SPEC_DIR, MachineryError, json_lines, run_tlc
 
-HANDLES = ['vmd', 'ch', 'm1', 'm2', 'pc', 'dA', 'rt']
+HANDLES = ['vmd', 'ch', 'm1', 'm2', 'pc', 'dA', 'rt', 'al', 'op']
 CTX = ['c1', 'c2']
 
 
@@ -72,6 +72,20 @@ class Lab:
             def fn():
                 self.tok_n += 1
                 with m.component_state_transaction() as mgr:
+                    apply_tok(mgr.get_state(conc(a)), self.tok_n)
+            return fn
+
+        def w_alert(a):
+            def fn():
+                self.tok_n += 1
+                with m.alert_state_transaction() as mgr:
+                    apply_tok(mgr.get_state(conc(a)), self.tok_n)
+            return fn
+
+        def w_op(a):
+            def fn():
+                self.tok_n += 1
+                with m.operational_state_transaction() as mgr:
                     apply_tok(mgr.get_state(conc(a)), self.tok_n)
             return fn
 
@@ -170,7 +184,7 @@ class Lab:
                     pr.intervaltimer.IntervalTimer.remaining_time
                 saved = dict(m.retrievability_periodic)
                 m.retrievability_periodic.clear()
-                m.retrievability_periodic[100] = [conc('pc'), conc('m1')]
+                m.retrievability_periodic[100] = [conc('pc'), conc('m1'), conc('vmd'), conc('al'), conc('op')]
                 pr.time = types.SimpleNamespace(sleep=lambda s: None, time=old_time.time, monotonic=old_time.monotonic)
                 pr.intervaltimer.IntervalTimer.wait_next_interval_begin = lambda self_: None
                 pr.intervaltimer.IntervalTimer.remaining_time = lambda self_: 0
@@ -192,7 +206,10 @@ class Lab:
                     if w.src != 'provider':
                         continue
                     for name, cls in (('PeriodicContextReport', mt.PeriodicContextReport),
-                                      ('PeriodicMetricReport', mt.PeriodicMetricReport)):
+                                      ('PeriodicMetricReport', mt.PeriodicMetricReport),
+                                      ('PeriodicAlertReport', mt.PeriodicAlertReport),
+                                      ('PeriodicComponentReport', mt.PeriodicComponentReport),
+                                      ('PeriodicOperationalStateReport', mt.PeriodicOperationalStateReport)):
                         if name.encode() in w.data:
                             md = reader.read_received_message(w.data)
                             rep = cls.from_node(md.p_msg.msg_node)
@@ -230,6 +247,7 @@ class Lab:
 
         table = {
             'W_metric_m1': w_metric('m1'), 'W_metric_m2': w_metric('m2'), 'W_comp_vmd': w_comp('vmd'),
+            'W_alert_al': w_alert('al'), 'W_op_op': w_op('op'),
             'W_descr_m1': w_descr('m1'), 'W_descr_ch': w_descr('ch'), 'W_ctx': w_ctx(),
             'R_state_m1': r_state(['m1'], 'GetMdState[m1]'), 'R_state_all': r_state(None, 'GetMdState[]'),
             'R_mdib': r_mdib(), 'R_descr': r_descr(), 'R_ctx_all': r_ctx(None), 'R_ctx_pc': r_ctx(['pc']),
